@@ -36,7 +36,10 @@ func H_C15_Validator(v *verifrt.T) {
 	for _, k := range conf.Keys {
 		keyListed = verifrt.Or(keyListed, k == key)
 	}
-	want := verifrt.And(verifrt.Or(ns == 0, srcListed), verifrt.Or(nk == 0, keyListed))
+	// "." and ".." are never names of a source (C14: as directory names they
+	// denote the receiver's roots or their parent)
+	dots := verifrt.Or(source == ".", source == "..")
+	want := verifrt.And(verifrt.Not(dots), verifrt.And(verifrt.Or(ns == 0, srcListed), verifrt.Or(nk == 0, keyListed)))
 	v.Assert(got == want, "C15.O1 a request is accepted exactly when its source and key are allowed")
 	if got {
 		v.Reach("accepted")
